@@ -19,6 +19,7 @@ CONSTANTS MaxSel, Wide     \* Wide = TRUE: the full ranges (thorough); FALSE: th
 Variants == {"one", "multi", "rank", "oneM", "other", "filter", "rand", "randseed", "randseedref", "filter_rand",
              "csv", "csv_vl", "csv_rand", "xml_filter", "geojson", "geojson_rand", "geojson_v", "geojson_l", "external", "repeat", "search",
              "search_after_modifier",     \* search() written after another appearance word ("minimal search('f')")
+             "external_ls",               \* select_one_external whose filter is the form's only last-saved reference
              "randfalse"}                 \* randomize=false written out: the select is NOT randomized
 NeedsM == {"oneM", "other", "search", "search_after_modifier"}
 Searches == {"search", "search_after_modifier"}
@@ -26,8 +27,11 @@ Fill == IF Wide THEN {"all", "none", "first", "last", "alt"} ELSE {"all", "alt",
 NL == IF Wide THEN {1, 2, 3} ELSE {1, 3}
 NM == IF Wide THEN {0, 1, 2} ELSE {0, 2}
 XC == IF Wide THEN {0, 1, 2} ELSE {0, 2}
-Extras == IF Wide THEN 0..8 ELSE {0, 3, 5, 6, 7, 8}     \* 6: a last-saved reference in the second of two expression binds of one question
+Extras == IF Wide THEN 0..14 ELSE {0, 3, 5, 6, 7, 8, 9, 10, 11, 12, 13, 14}     \* 6: a last-saved reference in the second of two expression binds of one question
                                                       \* 7 / 8: a pulldata() file named only in a repeat row's / a group row's own relevant cell
+\* 9..14: the form's only last-saved reference stands in a group's relevant / a repeat's relevant / a repeat count / a label /
+\* a hint and a required message / the seed of a randomized select  (every place where a reference is substituted can name the last-saved instance)
+LastSavedSites == 9..14
 ExtShapes == IF Wide THEN 0..5 ELSE {0, 2, 4, 5}     \* 5: the list column of external_choices under its alias spelling "list name"
 
 \* how the lists are named and labelled: plain names / names containing a dot (legal; only a recognised file extension means
@@ -42,6 +46,8 @@ GInit == /\ cfg \in [nl : NL, nm : NM, nu : {0, 1}, xc : XC, fill : Fill, inter 
          /\ (cfg.own # "none" => cfg.nm >= 2)                 \* list M defines its own choice named 'other' (first or last row)
          /\ (~Wide => (cfg.own = "none" \/ (cfg.xc = 0 /\ cfg.extras = 0 /\ cfg.ext = 0 /\ cfg.depth = 0)))
          /\ (~Wide => (cfg.style = "plain" \/ (cfg.extras = 0 /\ cfg.ext \in {0, 2} /\ cfg.own = "none")))
+         /\ (~Wide => (cfg.extras \notin LastSavedSites \/ (cfg.xc = 0 /\ cfg.depth = 0 /\ ~cfg.inter /\ cfg.ext \in {0, 2})))
+         /\ (cfg.extras \in LastSavedSites => (cfg.fill = "all" /\ ~cfg.dup /\ cfg.own = "none" /\ cfg.nu = 0))
          /\ (cfg.xc = 0 => cfg.fill = "all")                 \* sparsity only matters with extra columns
          /\ (cfg.nm = 0 => ~cfg.inter)                        \* interleaving needs two lists
          /\ (cfg.dup => cfg.nl >= 2)
@@ -54,10 +60,10 @@ AddSelect(v) ==
   /\ phase = "build" /\ Len(sels) < MaxSel
   /\ (v \in NeedsM => cfg.nm > 0)
   /\ (v \in Searches => ~UsesMPlain(sels)) /\ (v \in {"oneM", "other"} => ~UsesSearch(sels))
-  /\ (v = "external" => cfg.ext > 0)
+  /\ (v \in {"external", "external_ls"} => cfg.ext > 0)
   /\ (v \in Searches => ~IsItext(cfg))                       \* (inline items of a translated list: out of this model)
   /\ sels' = Append(sels, v) /\ UNCHANGED <<cfg, phase>>
-Close == phase = "build" /\ Len(sels) > 0 /\ (cfg.ext > 0 => \E i \in 1..Len(sels) : sels[i] = "external")
+Close == phase = "build" /\ Len(sels) > 0 /\ (cfg.ext > 0 => \E i \in 1..Len(sels) : sels[i] \in {"external", "external_ls"})
          /\ phase' = "done" /\ UNCHANGED <<cfg, sels>>
 GNext == (\E v \in Variants : AddSelect(v)) \/ Close
 GSpec == GInit /\ [][GNext]_gvars
